@@ -107,6 +107,8 @@ def file_failures(seed):
         if cube:
             data[0, 1, 1] = np.nan
             data[2, 4, 5] = np.nan
+            if seed % 2:
+                data[1] = 0.0          # a channel of exact zeros is data like any other
         else:
             data[1, 1] = np.nan
         blank_before = np.isnan(data)
@@ -208,6 +210,22 @@ def masked_table_failures(seed, negate):
     return []
 
 
+def integer_table_failures(negate):
+    """coordinates stored as integers (whole-degree grid positions): same answers as the same numbers stored as floats"""
+    reg = Region(maxdepth=6)
+    reg.add_circles(np.radians([50.0, 10.0]), np.radians([-20.0, 30.0]), np.radians([6.0, 8.0]))
+    ra = np.array([50, 52, 70, 10, 14, 200, 0, 57], dtype=np.int64)
+    dec = np.array([-20, -22, -20, 30, 33, 5, 0, -20], dtype=np.int64)
+    ti = Table({'ra': ra, 'dec': dec, 'id': np.arange(len(ra))})
+    tf = Table({'ra': ra.astype(float), 'dec': dec.astype(float), 'id': np.arange(len(ra))})
+    gi = [int(v) for v in MIMAS.mask_table(reg, ti, negate=negate)['id']]
+    gf = [int(v) for v in MIMAS.mask_table(reg, tf, negate=negate)['id']]
+    want = [k for k in range(len(ra)) if bool(reg.sky_within(float(ra[k]), float(dec[k]), degin=True)[0]) == negate]
+    if gi != want or gf != want:
+        return ["integer-typed columns keep rows %r, float columns %r, expected %r (negate=%s)" % (gi, gf, want, negate)]
+    return []
+
+
 def crosscheck(p):
     n = 12 if p.get("tier") != "thorough" else 150
     s0 = p.get("seed", 0) * 1000
@@ -248,6 +266,14 @@ def crosscheck(p):
                 fl = ["mask_table with masked coordinates raised %r" % (e,)]
             if fl:
                 add("rows_kept_iff_not_inside.masked", {"masked_seed": s0 + i, "negate": negate}, fl, {"masked": [[s0 + i, negate]]})
+    for negate in (False, True):
+        evals += 1
+        try:
+            fl = integer_table_failures(negate)
+        except Exception as e:
+            fl = ["mask_table with integer coordinates raised %r" % (e,)]
+        if fl:
+            add("rows_kept_iff_not_inside.integer_columns", {"integer_columns": True, "negate": negate}, fl, {"integer": [negate]})
     for i in range(3):
         evals += 1
         fl = file_failures(s0 + i)
@@ -272,7 +298,11 @@ def replay_masking(p):
         fl = masked_table_failures(s, n)
         if fl:
             bad.append({"masked_seed": s, "negate": n, "what": fl})
-    if p.get("reuse") or p.get("offsky") or p.get("masked"):
+    for n in p.get("integer") or []:
+        fl = integer_table_failures(n)
+        if fl:
+            bad.append({"integer_columns": True, "negate": n, "what": fl})
+    if p.get("reuse") or p.get("offsky") or p.get("masked") or p.get("integer") is not None:
         return {"fails": bool(bad), "observed": bad, "replay_func": "replay_masking", "replay_payload": p}
     planes = p.get("planes") or ([[s, n] for s in range(40) for n in (False, True)] if not p.get("tables") and not p.get("files") else [])
     for s, n in planes:
